@@ -657,9 +657,17 @@ impl ExecutableContent for SendParameters {
                 let global_clone = datamodel.global_s().clone();
                 let send_id_clone = send_id.clone();
                 let target_str = target_guard.to_string();
+                // Several pending sends may share one id: each one removes only its own guard.
+                let token = PLATFORM_ID_COUNTER.fetch_add(1, Ordering::Relaxed);
                 let tg = fsm.schedule(delay_ms, move || {
                     if let Some(sid) = &send_id_clone {
-                        global_clone.lock().unwrap().delayed_send.remove(sid);
+                        let mut global_guard = global_clone.lock().unwrap();
+                        if let Some(pending) = global_guard.delayed_send.get_mut(sid) {
+                            pending.retain(|(t, _)| *t != token);
+                            if pending.is_empty() {
+                                global_guard.delayed_send.remove(sid);
+                            }
+                        }
                     }
                     iopc.lock()
                         .unwrap()
@@ -672,7 +680,9 @@ impl ExecutableContent for SendParameters {
                             .lock()
                             .unwrap()
                             .delayed_send
-                            .insert(sid.clone(), g);
+                            .entry(sid.clone())
+                            .or_default()
+                            .push((token, g));
                     } else {
                         g.ignore();
                     }
